@@ -2,6 +2,7 @@ package zsim
 
 import (
 	"context"
+	"math/rand"
 	"reflect"
 	"runtime"
 	"sync"
@@ -768,4 +769,145 @@ func WithTimeout(parent context.Context, d time.Duration) (context.Context, cont
 		return context.WithTimeout(parent, d)
 	}
 	return WithDeadline(parent, Now().Add(d))
+}
+
+// Until is time.Until on the simulated clock.
+//
+//go:norace
+func Until(t time.Time) time.Duration { return t.Sub(Now()) }
+
+// NumCPU and GOMAXPROCS: inside a simulation the machine has four processors, whatever
+// the worker process runs on (the same seed must give the same run everywhere).
+//
+//go:norace
+func NumCPU() int {
+	if S == nil {
+		return runtime.NumCPU()
+	}
+	return 4
+}
+
+//go:norace
+func GOMAXPROCS(n int) int {
+	if S == nil {
+		return runtime.GOMAXPROCS(n)
+	}
+	return 4
+}
+
+// The top-level functions of math/rand (the unseeded global source): inside a
+// simulation their answers are answers of the run's choice stream.
+
+//go:norace
+func randN(n uint64) uint64 {
+	s := S
+	if n <= 1 {
+		return 0
+	}
+	if n <= 1<<31 {
+		return uint64(s.Ch.Intn(int(n)))
+	}
+	return (uint64(s.Ch.Intn(1<<31))<<31 | uint64(s.Ch.Intn(1<<31))) % n
+}
+
+func RandIntn(n int) int {
+	if S == nil || S.dying {
+		return rand.Intn(n)
+	}
+	if n <= 0 {
+		panic("invalid argument to Intn")
+	}
+	return int(randN(uint64(n)))
+}
+
+func RandInt63n(n int64) int64 {
+	if S == nil || S.dying {
+		return rand.Int63n(n)
+	}
+	if n <= 0 {
+		panic("invalid argument to Int63n")
+	}
+	return int64(randN(uint64(n)))
+}
+
+func RandInt31n(n int32) int32 {
+	if S == nil || S.dying {
+		return rand.Int31n(n)
+	}
+	if n <= 0 {
+		panic("invalid argument to Int31n")
+	}
+	return int32(randN(uint64(n)))
+}
+
+func RandInt63() int64 {
+	if S == nil || S.dying {
+		return rand.Int63()
+	}
+	return int64(randN(1 << 62))
+}
+
+func RandInt31() int32 {
+	if S == nil || S.dying {
+		return rand.Int31()
+	}
+	return int32(randN(1 << 31))
+}
+
+func RandInt() int {
+	if S == nil || S.dying {
+		return rand.Int()
+	}
+	return int(randN(1 << 62))
+}
+
+func RandUint32() uint32 {
+	if S == nil || S.dying {
+		return rand.Uint32()
+	}
+	return uint32(randN(1 << 32))
+}
+
+func RandUint64() uint64 {
+	if S == nil || S.dying {
+		return rand.Uint64()
+	}
+	return randN(1<<62) | randN(4)<<62
+}
+
+func RandFloat64() float64 {
+	if S == nil || S.dying {
+		return rand.Float64()
+	}
+	return float64(randN(1<<53)) / (1 << 53)
+}
+
+func RandFloat32() float32 {
+	if S == nil || S.dying {
+		return rand.Float32()
+	}
+	return float32(randN(1<<24)) / (1 << 24)
+}
+
+func RandPerm(n int) []int {
+	if S == nil || S.dying {
+		return rand.Perm(n)
+	}
+	m := make([]int, n)
+	for i := range m {
+		j := int(randN(uint64(i + 1)))
+		m[i] = m[j]
+		m[j] = i
+	}
+	return m
+}
+
+func RandShuffle(n int, swap func(i, j int)) {
+	if S == nil || S.dying {
+		rand.Shuffle(n, swap)
+		return
+	}
+	for i := n - 1; i > 0; i-- {
+		swap(i, int(randN(uint64(i+1))))
+	}
 }
